@@ -363,8 +363,20 @@ pub fn sources(args: &[String]) -> i32 {
         let desc = match k % 4 { 0 => String::new(), 1 => format!("job {} description", k), 2 => "説明 ✓".to_string(), _ => "x".repeat(40) };
         jobs.push(json!({"job": k, "dir": jd.display().to_string(), "matrix": jd.join("matrix.def").display().to_string(), "lex": files, "user": jd.join("user.csv").display().to_string(), "desc": desc}));
     }
+    // the repository's own fixture sources (split units of several words, user dictionary over it)
+    {
+        let jd = dir.join(format!("job{}", n));
+        std::fs::create_dir_all(&jd).unwrap();
+        for f in ["lex.csv", "matrix_10x10.def", "user1.csv"] {
+            std::fs::copy(format!("{}/{}", dicts::TEST_RES, f), jd.join(f)).unwrap();
+        }
+        // one more lexicon file: words with several synonym groups and three-unit splits
+        std::fs::write(jd.join("lex_more.csv"), "東京都京都,6,8,5000,東京都京都,名詞,固有名詞,地名,一般,*,*,トウキョウトキョウト,東京都京都,*,C,5/9/3,6/3,5/9/3,1/22/333\n").unwrap();
+        jobs.push(json!({"job": n, "dir": jd.display().to_string(), "matrix": jd.join("matrix_10x10.def").display().to_string(),
+            "lex": [jd.join("lex.csv").display().to_string(), jd.join("lex_more.csv").display().to_string()], "user": jd.join("user1.csv").display().to_string(), "desc": "fixture sources"}));
+    }
     std::fs::write(dir.join("jobs.json"), serde_json::to_string(&jobs).unwrap()).unwrap();
-    println!("{}", json!({"jobs": n}));
+    println!("{}", json!({"jobs": n + 1}));
     0
 }
 
